@@ -51,6 +51,7 @@ const (
 	ForwardMs   = 31 * 1000      // one Advance: past the 30 s forward timeout
 	clockStart  = int64(1) << 40 // virtual ms
 	waitTimeout = 20 * time.Second
+	WaitTimeout = waitTimeout
 	// Sentinel request ids live in [SentinelLo, SentinelHi); cases never use them.
 	SentinelLo = uint64(4000000000)
 	SentinelHi = uint64(4200000000)
